@@ -145,7 +145,14 @@ public:
                 return *this;
             }
         }
-        finish = std::min(finish, upper);
+        if constexpr (std::is_integral_v<T>) {
+            if (upper == std::numeric_limits<T>::min()) {  // nothing is below the minimum
+                start = 1;
+                finish = 0;
+                return *this;
+            }
+        }
+        finish = std::min(finish, prev_value(upper));
         return *this;
     }
 
